@@ -1,2 +1,701 @@
-// Package c06 will hold the check for property C06.
+// Package c06 decides C06: a message whose data exceeds the configured maximum message size is
+// refused (at MAIL when the declared SIZE is too large, otherwise at DATA) and no part of it is
+// stored; messages within the limit are accepted; after a refusal the session stays usable.
 package c06
+
+import (
+	"bytes"
+	"fmt"
+	"sort"
+	"strconv"
+	"strings"
+	"time"
+
+	"verifharness/internal/fw"
+	"verifharness/internal/sut"
+)
+
+var limits = []int{1, 100, 1000, 65536, 1000000}
+
+func init() {
+	fw.Register(&fw.Prop{
+		ID:    "C06",
+		Level: "exploration",
+		Rule: "connections generated from (seed, case index): limit = {1,100,1000,65536,1000000}[i mod 5], back end = {mem,file}[(i/5) mod 2]; " +
+			"1-3 probe transactions per connection, each a message of CRLF-form length limit+d (d in -12..+12 enumerated by case index, plus " +
+			"limit/2, 2x, 3x, 10x, 20x, 100x for small limits, random) shaped as one long line, 60-byte lines, 1-byte lines or dot-led lines, " +
+			"with SIZE absent / truthful / understated / overstated-within-limit / = limit / limit+1 / 2x limit / 2^31-1 / 2^31 / 2^32 / " +
+			"20 digits / non-numeric, in several spellings. Measures: lo = LF-form length without the final newline, hi = length on the wire " +
+			"(CRLF form, stuffed dots, terminator). Declared SIZE > limit => MAIL 5xx; lo > limit => not 2xx and store unchanged; hi <= limit " +
+			"with a well-formed header block => 250 and stored; in between don't care. After every refusal a small transaction on the same " +
+			"connection must be acknowledged (and stored when it fits the limit). Non-trivial and distinct by (limit, back end, size class, " +
+			"shape, SIZE variant, outcome).",
+		Assumptions: []string{
+			"the acceptance side is only asserted for messages that start with a well-formed header block (Deliver may answer 451 otherwise)",
+			"sizes between lo and hi of the limit are don't-care, so a pure off-by-one in the comparison is not decidable",
+			"non-numeric SIZE values: the MAIL reply is observed, not judged",
+			"a follow-up MAIL answered 503 is retried after RSET (a server may keep the failed transaction open); only a follow-up that still fails is a violation",
+			"sessions run through VerifServeConn on an in-memory net.Conn",
+		},
+		MinObs: func(tier string) map[string]int64 {
+			f := int64(1)
+			if tier == "thorough" {
+				f = 8
+			}
+			m := map[string]int64{"probes": 1500 * f, "must_refuse_data": 300 * f, "must_accept": 200 * f, "dont_care_band": 50 * f,
+				"mail_size_over_limit": 150 * f, "refused_at_data": 300 * f, "refused_at_mail": 150 * f, "accepted_and_stored": 200 * f,
+				"followups_stored": 300 * f, "followups_usable_only": 30 * f, "distinct_nontrivial": 300}
+			for _, l := range limits {
+				for _, b := range []string{"mem", "file"} {
+					m[fmt.Sprintf("config:%d/%s", l, b)] = 50 * f
+				}
+				if l >= 100 {
+					m[fmt.Sprintf("refused_at_data:limit=%d", l)] = 30 * f
+					m[fmt.Sprintf("accepted_and_stored:limit=%d", l)] = 20 * f
+				}
+			}
+			return m
+		},
+		Run: run,
+	})
+}
+
+func run(c *fw.Ctx) {
+	n := c.N(4500, 40000)
+	c.Cases("conn", n, func(i int, r *fw.Rand) { runConn(c, i, r) })
+}
+
+// probe is one test message with its SIZE declaration.
+type probe struct {
+	data      []byte // CRLF-form message, ends in CRLF (or empty)
+	shape     string
+	hasHeader bool
+	lo, hi    int
+	sizeKind  string
+	sizeParam string // text appended to MAIL FROM:<..>, "" when absent
+	declared  int64  // numeric declared value, -1 when absent or not numeric
+	hugeNum   bool   // numeric but beyond int64 (20 digits): certainly above every limit
+}
+
+const minHeader = "A:b\r\n\r\n"
+
+// buildMessage makes a CRLF-form message of exactly total bytes (total == 0 or >= 2).
+func buildMessage(r *fw.Rand, total int, shape string) (data []byte, hasHeader bool) {
+	if total <= 0 {
+		return nil, false
+	}
+	if total < len(minHeader) {
+		if total < 2 {
+			total = 2
+		}
+		return append(bytes.Repeat([]byte("x"), total-2), '\r', '\n'), false
+	}
+	var b bytes.Buffer
+	b.Grow(total + 2)
+	hdr := "A:b"
+	if total >= 60 && r.Bool() {
+		hdr = "From: big@origin.test\r\nSubject: c06 probe"
+	}
+	if total-len(hdr)-4 == 1 {
+		hdr += "b" // a body of exactly one byte cannot be a CRLF-terminated line
+	}
+	b.WriteString(hdr + "\r\n\r\n")
+	rem := total - b.Len()
+	for rem > 0 {
+		n := rem // line length including its CRLF
+		switch shape {
+		case "lines60":
+			n = 62
+		case "lines1":
+			n = 3
+		case "dotlines":
+			n = 12
+		}
+		if n >= rem || rem-n == 1 {
+			n = rem
+		}
+		body := n - 2
+		lead := ""
+		if shape == "dotlines" {
+			lead = "."
+			if r.Bool() {
+				lead = ".."
+			}
+		}
+		if len(lead) > body {
+			lead = lead[:body]
+		}
+		b.WriteString(lead)
+		for k := len(lead); k < body; k++ {
+			b.WriteByte("abcdefghijklmnopqrstuvwxyz0123456789"[(k*7+n)%36])
+		}
+		b.WriteString("\r\n")
+		rem -= n
+	}
+	if b.Len() != total {
+		panic(fmt.Sprintf("harness: buildMessage(%d,%s) produced %d bytes", total, shape, b.Len()))
+	}
+	return b.Bytes(), true
+}
+
+func measures(data []byte) (lo, hi int) {
+	if len(data) == 0 {
+		return 0, len(sut.DotStuff(data))
+	}
+	nl := bytes.Count(data, []byte("\r\n"))
+	lo = len(data) - nl - 1
+	if lo < 0 {
+		lo = 0
+	}
+	return lo, len(sut.DotStuff(data))
+}
+
+var sizeKinds = []string{"absent", "absent", "absent", "absent", "absent", "absent", "truthful", "truthful", "understated",
+	"understated", "overstated-within", "eq-limit", "limit+1", "2xlimit", "int32max", "2^31", "2^32", "20digits", "nonnumeric"}
+
+func genProbe(r *fw.Rand, limit, slot int) probe {
+	var p probe
+	// Size: the case slot enumerates the offsets around the limit; other slots pick multiples.
+	offsets := []int{-12, -8, -6, -5, -4, -3, -2, -1, 0, 1, 2, 3, 4, 5, 6, 7, 8, 9, 12}
+	var total int
+	switch s := slot % 30; {
+	case s < len(offsets):
+		total = limit + offsets[s]
+	case s == 19:
+		total = limit / 2
+	case s == 20:
+		total = 2 * limit
+	case s == 21:
+		total = 3 * limit
+	case s == 22:
+		total = 10 * limit
+	case s == 23:
+		total = 2*limit + r.Range(0, 50)
+	case s == 24:
+		total = limit + limit/3
+	case s == 25:
+		total = r.Range(2, 2*limit+20)
+	case s == 26:
+		total = limit + r.Range(10, 40)
+	default:
+		total = r.Range(limit+5, 3*limit+40)
+	}
+	if limit < 100 && slot%3 == 0 {
+		total = limit * []int{10, 20, 100, 13, 40}[r.Intn(5)] // small limits: room for a header block
+	}
+	if total < 0 {
+		total = 0
+	}
+	if total == 1 {
+		total = 2
+	}
+	p.shape = []string{"oneline", "oneline", "oneline", "lines60", "lines1", "dotlines"}[r.Intn(6)]
+	p.data, p.hasHeader = buildMessage(r, total, p.shape)
+	p.lo, p.hi = measures(p.data)
+
+	p.sizeKind = sizeKinds[r.Intn(len(sizeKinds))]
+	p.declared = -1
+	val := ""
+	switch p.sizeKind {
+	case "absent":
+	case "truthful":
+		p.declared = int64(len(p.data))
+	case "understated":
+		p.declared = int64(r.Intn(len(p.data)/2 + 1))
+		if p.declared > int64(limit) {
+			p.declared = int64(r.Intn(limit + 1))
+		}
+	case "overstated-within":
+		p.declared = int64(limit - r.Intn(limit/4+1))
+	case "eq-limit":
+		p.declared = int64(limit)
+	case "limit+1":
+		p.declared = int64(limit) + 1
+	case "2xlimit":
+		p.declared = 2 * int64(limit)
+	case "int32max":
+		p.declared = 2147483647
+	case "2^31":
+		p.declared = 2147483648
+	case "2^32":
+		p.declared = 4294967296 + int64(r.Intn(5))
+	case "20digits":
+		val = "9" + r.Letters(19, "0123456789")
+		p.hugeNum = true
+	case "nonnumeric":
+		val = r.Pick([]string{"abc", "12x", "x12", "0x10", "1e3", "_"})
+	}
+	if p.declared >= 0 {
+		val = strconv.FormatInt(p.declared, 10)
+	}
+	if val != "" {
+		switch r.Intn(6) {
+		case 0:
+			p.sizeParam = " BODY=8BITMIME SIZE=" + val
+		case 1:
+			p.sizeParam = " SIZE=" + val + " BODY=8BITMIME"
+		case 2:
+			p.sizeParam = " size=" + val
+		default:
+			p.sizeParam = " SIZE=" + val
+		}
+	}
+	return p
+}
+
+type conn struct {
+	c       *fw.Ctx
+	env     *sut.Env
+	ss      *sut.SMTPSession
+	limit   int
+	backend string
+	idx     int
+	known   map[string]bool
+	model   map[string][]sut.MsgSnap
+	seq     int
+	hung    bool
+}
+
+// cmd is SMTPSession.Cmd, except that an expired watchdog is a bounded-progress candidate (the
+// parent re-runs the case with a larger budget), never a verdict on the property: once it has
+// fired, nothing else in this case is judged.
+func (k *conn) cmd(line string) (sut.Reply, error) {
+	rep, err := k.ss.Cmd(line)
+	if err != nil && strings.HasPrefix(err.Error(), "watchdog:") {
+		k.hang("smtp-command", err.Error())
+	}
+	return rep, err
+}
+
+func (k *conn) hang(name, what string) {
+	if !k.hung {
+		k.hung = true
+		k.c.Hang(name, fmt.Sprintf("[limit %d %s case %d] %s", k.limit, k.backend, k.idx, what), "")
+	}
+}
+
+func (k *conn) fail(key, what string, extra map[string]any) {
+	if k.hung {
+		return
+	}
+	d := map[string]any{"limit": k.limit, "backend": k.backend, "trace": k.ss.Trace}
+	for a, b := range extra {
+		d[a] = b
+	}
+	k.c.Violation(key, fmt.Sprintf("[limit %d %s case %d] %s", k.limit, k.backend, k.idx, what), d)
+}
+
+func runConn(c *fw.Ctx, idx int, r *fw.Rand) {
+	limit := limits[idx%5]
+	backend := []string{"mem", "file"}[(idx/5)%2]
+	slot := idx / 10
+	conf := sut.DefaultConf()
+	conf.SMTP.MaxMessageBytes = limit
+	if backend == "file" {
+		conf.Storage.Type = "file"
+		conf.Storage.Params = map[string]string{"path": c.TempDir("c06fs")}
+	}
+	env, err := sut.NewEnv(conf, backend)
+	if err != nil {
+		panic(err)
+	}
+	c.Count(fmt.Sprintf("config:%d/%s", limit, backend), 1)
+	ss := env.StartSMTP()
+	ss.Watchdog = 120 * time.Second * time.Duration(c.Slow)
+	k := &conn{c: c, env: env, ss: ss, limit: limit, backend: backend, idx: idx, known: map[string]bool{}, model: map[string][]sut.MsgSnap{}}
+	defer func() {
+		if !ss.Ended() && !ss.Close() {
+			c.Hang("smtp-session-end", "SMTP session did not end after the client closed", "")
+		}
+	}()
+	if rs, mal, _, ok := ss.Step(nil); !ok {
+		k.hang("smtp-greeting", "no output and no idle point after connecting")
+		return
+	} else if mal != "" || len(rs) != 1 || rs[0].Code != 220 {
+		k.fail("C06:smtp-dialogue", "no single 220 greeting", nil)
+		return
+	}
+	rep, err := k.cmd("EHLO client.test")
+	if err != nil || rep.Code != 250 {
+		k.fail("C06:smtp-dialogue", fmt.Sprintf("EHLO answered %v %v", rep, err), nil)
+		return
+	}
+	// The advertised SIZE must be the configured limit (observed, informational).
+	for _, l := range rep.Lines {
+		if strings.HasSuffix(l, " SIZE "+strconv.Itoa(limit)) {
+			c.Count("ehlo_advertises_limit", 1)
+		}
+	}
+	nprobe := r.Range(1, 3)
+	var sigs []string
+	for j := 0; j < nprobe; j++ {
+		p := genProbe(r, limit, slot*3+j)
+		sig, ok := k.runProbe(r, p)
+		if sig != "" {
+			sigs = append(sigs, sig)
+		}
+		if !ok {
+			break
+		}
+	}
+	for _, s := range sigs {
+		c.NonTrivial(s)
+	}
+}
+
+// snapshot reads the whole store and returns the mailboxes that changed relative to the model,
+// after checking that nothing that existed before was lost or altered.
+func (k *conn) delta() (added map[string][]sut.MsgSnap, err error) {
+	var extra []string
+	for n := range k.known {
+		extra = append(extra, n)
+	}
+	sort.Strings(extra)
+	snap, err := sut.Snapshot(k.env.Store, extra, true)
+	if err != nil {
+		return nil, err
+	}
+	added = map[string][]sut.MsgSnap{}
+	for n, old := range k.model {
+		cur := snap[n]
+		if len(cur) < len(old) {
+			return nil, fmt.Errorf("mailbox %q lost messages: %d -> %d", n, len(old), len(cur))
+		}
+		for i := range old {
+			if old[i].ID != cur[i].ID || old[i].Source != cur[i].Source {
+				return nil, fmt.Errorf("mailbox %q message %d changed", n, i)
+			}
+		}
+	}
+	for n, cur := range snap {
+		if len(cur) > len(k.model[n]) {
+			added[n] = cur[len(k.model[n]):]
+		}
+	}
+	k.model = snap
+	return added, nil
+}
+
+func describe(added map[string][]sut.MsgSnap) string {
+	var parts []string
+	for n, l := range added {
+		for _, m := range l {
+			parts = append(parts, fmt.Sprintf("%s/%s size=%d", n, m.ID, m.Size))
+		}
+	}
+	sort.Strings(parts)
+	return strings.Join(parts, ", ")
+}
+
+func normC(b []byte) []byte {
+	out := make([]byte, 0, len(b))
+	for i := 0; i < len(b); i++ {
+		if b[i] == '\r' {
+			j := i
+			for j < len(b) && b[j] == '\r' {
+				j++
+			}
+			if j < len(b) && b[j] == '\n' {
+				i = j - 1
+				continue
+			}
+			out = append(out, b[i:j]...)
+			i = j - 1
+			continue
+		}
+		out = append(out, b[i])
+	}
+	return out
+}
+
+// runProbe plays one probe transaction plus, after a refusal, the follow-up transaction.
+// It returns the non-trivial signature and whether the connection can carry another probe.
+func (k *conn) runProbe(r *fw.Rand, p probe) (string, bool) {
+	c, ss, limit := k.c, k.ss, k.limit
+	c.Count("probes", 1)
+	c.Count("size_kind:"+p.sizeKind, 1)
+	c.Count("shape:"+p.shape, 1)
+	k.seq++
+	nrcpt := 1
+	if r.Chance(1, 4) {
+		nrcpt = 2
+	}
+	var boxes []string
+	for j := 0; j < nrcpt; j++ {
+		b := fmt.Sprintf("p%d%c", k.seq, 'a'+j)
+		boxes = append(boxes, b)
+		k.known[b] = true
+	}
+	info := map[string]any{"crlf_len": len(p.data), "lo": p.lo, "hi": p.hi, "shape": p.shape, "size_param": p.sizeParam,
+		"has_header": p.hasHeader, "head": fw.Trunc(string(p.data), 120)}
+	class := "dont-care"
+	switch {
+	case p.lo > limit:
+		class = "must-refuse"
+	case p.hi <= limit && p.hasHeader:
+		class = "must-accept"
+	case p.hi <= limit:
+		class = "fits-no-header"
+	}
+	declaredOver := p.hugeNum || p.declared > int64(limit)
+	sig := func(outcome string) string {
+		c.Sample(map[string]any{"limit": limit, "backend": k.backend, "class": class, "crlf_len": len(p.data), "lo": p.lo, "hi": p.hi,
+			"shape": p.shape, "mail_params": p.sizeParam, "outcome": outcome})
+		return fmt.Sprintf("%d|%s|%s|%s|%s|%s", limit, k.backend, class, p.shape, p.sizeKind, outcome)
+	}
+	noStore := func(when string) bool {
+		added, err := k.delta()
+		if err != nil {
+			k.fail("C06:store-damaged", when+": "+err.Error(), info)
+			return false
+		}
+		if len(added) > 0 {
+			k.fail("C06:refused-message-stored", fmt.Sprintf("%s, yet the store gained: %s", when, describe(added)), info)
+			return false
+		}
+		return true
+	}
+
+	mail := "MAIL FROM:<big@origin.test>" + p.sizeParam
+	rep, err := k.cmd(mail)
+	if err != nil {
+		k.fail("C06:smtp-dialogue", err.Error(), info)
+		return "", false
+	}
+	if declaredOver {
+		c.Count("mail_size_over_limit", 1)
+		if rep.Class() != 5 {
+			k.fail("C06:declared-size-over-limit-accepted", fmt.Sprintf("%q (limit %d) answered %s", mail, limit, rep.String()), info)
+			return "", false
+		}
+		c.Count("refused_at_mail", 1)
+		c.Count("refused_at_mail:"+strconv.Itoa(rep.Code), 1)
+		if !noStore("MAIL refused for its SIZE") {
+			return "", false
+		}
+		if !k.followUp(r, info, "MAIL refused for its declared SIZE") {
+			return "", false
+		}
+		return sig("mail-refused"), true
+	}
+	if rep.Code != 250 {
+		if p.sizeKind == "nonnumeric" {
+			c.Count("nonnumeric_size_reply:"+strconv.Itoa(rep.Code), 1)
+			if !noStore("MAIL with non-numeric SIZE refused") {
+				return "", false
+			}
+			if !k.followUp(r, info, "MAIL with a non-numeric SIZE was refused") {
+				return "", false
+			}
+			return "", true
+		}
+		if class == "must-accept" {
+			k.fail("C06:within-limit-refused", fmt.Sprintf("%q (limit %d, message of %d wire bytes) answered %s", mail, limit, p.hi, rep.String()), info)
+			return "", false
+		}
+		c.Count("mail_refused_dont_care", 1)
+		if !noStore("MAIL refused") {
+			return "", false
+		}
+		if !k.followUp(r, info, "MAIL was refused") {
+			return "", false
+		}
+		return "", true
+	}
+	if p.sizeKind == "nonnumeric" {
+		c.Count("nonnumeric_size_reply:250", 1)
+	}
+	for _, b := range boxes {
+		rep, err := k.cmd("RCPT TO:<" + b + "@inbucket.test>")
+		if err != nil || rep.Code != 250 {
+			k.fail("C06:smtp-dialogue", fmt.Sprintf("RCPT answered %v %v", rep, err), info)
+			return "", false
+		}
+	}
+	rep, err = k.cmd("DATA")
+	if err != nil {
+		k.fail("C06:smtp-dialogue", err.Error(), info)
+		return "", false
+	}
+	if rep.Code != 354 {
+		// Refusing at the DATA command is a refusal too.
+		if class == "must-accept" {
+			k.fail("C06:within-limit-refused", fmt.Sprintf("DATA answered %s for a message of %d wire bytes (limit %d)", rep.String(), p.hi, limit), info)
+			return "", false
+		}
+		c.Count("refused_at_data_command", 1)
+		if !noStore("DATA command refused") {
+			return "", false
+		}
+		if !k.followUp(r, info, "the DATA command was refused") {
+			return "", false
+		}
+		return sig("data-cmd-refused"), true
+	}
+	replies, mal, closed, ok := ss.Step(sut.DotStuff(p.data))
+	if !ok {
+		k.hang("smtp-data", "session neither idle nor closed after the data block")
+		return "", false
+	}
+	if mal != "" || len(replies) == 0 {
+		k.fail("C06:no-reply-after-data", fmt.Sprintf("no well-formed reply after the terminating dot (malformed=%q closed=%v)", mal, closed), info)
+		return "", false
+	}
+	if len(replies) > 1 {
+		c.Count("multiple_replies_after_data", 1)
+	}
+	first := replies[0]
+	switch class {
+	case "must-refuse":
+		c.Count("must_refuse_data", 1)
+	case "must-accept":
+		c.Count("must_accept", 1)
+	case "dont-care":
+		c.Count("dont_care_band", 1)
+	}
+	if first.Class() == 2 {
+		if class == "must-refuse" {
+			added, _ := k.delta()
+			k.fail("C06:oversized-data-accepted", fmt.Sprintf("message of at least %d bytes (LF form without final newline; %d on the wire) answered %s with limit %d; store gained: %s",
+				p.lo, p.hi, first.String(), limit, describe(added)), info)
+			return "", false
+		}
+		// Accepted: every recipient must now hold exactly this message.
+		added, err := k.delta()
+		if err != nil {
+			k.fail("C06:store-damaged", "after an accepted message: "+err.Error(), info)
+			return "", false
+		}
+		want := normC(p.data)
+		for _, b := range boxes {
+			l := added[b]
+			if len(l) != 1 {
+				k.fail("C06:accepted-not-stored", fmt.Sprintf("250 after the dot, but mailbox %q gained %d messages", b, len(l)), info)
+				return "", false
+			}
+			if !bytes.HasSuffix(normC([]byte(l[0].Source)), want) {
+				k.fail("C06:accepted-stored-incomplete", fmt.Sprintf("250 after the dot, but the stored source of %s/%s (%d bytes) does not end with the %d transmitted bytes",
+					b, l[0].ID, len(l[0].Source), len(p.data)), info)
+				return "", false
+			}
+			delete(added, b)
+		}
+		if len(added) > 0 {
+			k.fail("C06:unexpected-stored", "store gained messages outside the recipients: "+describe(added), info)
+			return "", false
+		}
+		c.Count("accepted_and_stored", 1)
+		c.Count(fmt.Sprintf("accepted_and_stored:limit=%d", limit), 1)
+		if class == "dont-care" {
+			c.Count("dont_care_accepted", 1)
+		}
+		return sig("accepted"), len(replies) == 1
+	}
+	// Refused after the dot.
+	if class == "must-accept" {
+		k.fail("C06:within-limit-refused", fmt.Sprintf("message of %d wire bytes (limit %d, SIZE %q) answered %s after the dot", p.hi, limit, p.sizeParam, first.String()), info)
+		return "", false
+	}
+	if class == "dont-care" {
+		c.Count("dont_care_refused", 1)
+	}
+	if class == "fits-no-header" {
+		c.Count("fits_no_header_refused:"+strconv.Itoa(first.Code), 1)
+	}
+	c.Count("refused_at_data", 1)
+	c.Count("refused_at_data:"+strconv.Itoa(first.Code), 1)
+	c.Count(fmt.Sprintf("refused_at_data:limit=%d", limit), 1)
+	if !noStore(fmt.Sprintf("message of %d wire bytes refused with %s", p.hi, first.String())) {
+		return "", false
+	}
+	if closed || ss.Ended() {
+		k.fail("C06:session-unusable-after-refusal", "the server closed the connection after refusing an oversized message", info)
+		return "", false
+	}
+	if !k.followUp(r, info, fmt.Sprintf("a message of %d wire bytes was refused with %d", p.hi, first.Code)) {
+		return "", false
+	}
+	return sig("data-refused-" + strconv.Itoa(first.Code)), true
+}
+
+// followUp runs a small valid transaction on the same connection.
+func (k *conn) followUp(r *fw.Rand, info map[string]any, after string) bool {
+	c, ss, limit := k.c, k.ss, k.limit
+	k.seq++
+	box := fmt.Sprintf("f%d", k.seq)
+	k.known[box] = true
+	bad := func(what string) bool {
+		k.fail("C06:session-unusable-after-refusal", "after "+after+": "+what, info)
+		return false
+	}
+	withRset := r.Bool()
+	if withRset {
+		if rep, err := k.cmd("RSET"); err != nil || rep.Code != 250 {
+			return bad(fmt.Sprintf("RSET answered %v %v", rep, err))
+		}
+	}
+	rep, err := k.cmd("MAIL FROM:<small@origin.test>")
+	if err != nil {
+		return bad(err.Error())
+	}
+	if rep.Code == 503 && !withRset {
+		// A server may keep the failed transaction open until RSET.
+		c.Count("followup_needed_rset", 1)
+		if rep, err := k.cmd("RSET"); err != nil || rep.Code != 250 {
+			return bad(fmt.Sprintf("RSET answered %v %v", rep, err))
+		}
+		rep, err = k.cmd("MAIL FROM:<small@origin.test>")
+		if err != nil {
+			return bad(err.Error())
+		}
+	}
+	if rep.Code != 250 {
+		return bad("follow-up MAIL answered " + rep.String())
+	}
+	if rep, err := k.cmd("RCPT TO:<" + box + "@inbucket.test>"); err != nil || rep.Code != 250 {
+		return bad(fmt.Sprintf("follow-up RCPT answered %v %v", rep, err))
+	}
+	small := []byte(minHeader + "ok " + r.Letters(r.Range(0, 6), "abcdef") + "\r\n")
+	if _, hi := measures(small); hi > limit {
+		// Nothing with a header block fits this limit: show the session is usable, then abandon.
+		if rep, err := k.cmd("RSET"); err != nil || rep.Code != 250 {
+			return bad(fmt.Sprintf("RSET answered %v %v", rep, err))
+		}
+		if rep, err := k.cmd("NOOP"); err != nil || rep.Code != 250 {
+			return bad(fmt.Sprintf("NOOP answered %v %v", rep, err))
+		}
+		if added, err := k.delta(); err != nil || len(added) > 0 {
+			k.fail("C06:refused-message-stored", fmt.Sprintf("store changed during an abandoned follow-up: %v %s", err, describe(added)), info)
+			return false
+		}
+		c.Count("followups_usable_only", 1)
+		return true
+	}
+	if rep, err := k.cmd("DATA"); err != nil || rep.Code != 354 {
+		return bad(fmt.Sprintf("follow-up DATA answered %v %v", rep, err))
+	}
+	replies, mal, _, ok := ss.Step(sut.DotStuff(small))
+	if !ok {
+		k.hang("smtp-data", "session neither idle nor closed after the follow-up data block")
+		return false
+	}
+	if mal != "" || len(replies) != 1 || replies[0].Code != 250 {
+		var rs []string
+		for _, x := range replies {
+			rs = append(rs, x.String())
+		}
+		return bad(fmt.Sprintf("follow-up message of %d bytes answered %v (malformed=%q)", len(small), rs, mal))
+	}
+	added, err := k.delta()
+	if err != nil {
+		k.fail("C06:store-damaged", "after the follow-up: "+err.Error(), info)
+		return false
+	}
+	l := added[box]
+	if len(l) != 1 || !bytes.HasSuffix(normC([]byte(l[0].Source)), normC(small)) || len(added) != 1 {
+		k.fail("C06:followup-not-stored", fmt.Sprintf("after %s: follow-up message acknowledged 250, store delta is: %s", after, describe(added)), info)
+		return false
+	}
+	c.Count("followups_stored", 1)
+	return true
+}
